@@ -76,7 +76,7 @@ def run(tier, seed):
     ck.bounds = {'u': 'all field elements (as a ring indeterminate, zero tests unconstrained)', 'constants': 'A\', B\', Z and the 13 isogeny constants tied to RFC values by name'}
     ck.outside = ['that F.2/E.1 themselves are the map of 6.6.2 and a homomorphism (RFC, trusted); on-curve statement of the outputs follows from it']
     from props import C12
-    C12.run(tier, seed, ck)   # contracts of the field.Element methods used as summaries are re-proved on the current tree
+    C12.run(tier, seed, ck, which=['Square', 'Multiply', 'Add', 'One', 'IsZero', 'Negate', 'CMove', 'SqrtRatio', 'Sgn0', 'IsEqual', 'Invert', 'Set'])   # contracts of the field.Element methods used as summaries are re-proved on the current tree
 
     def battery(key, why):
         us = [0, 1, 2, P - 1, 5, 7, 11, 2**255 % P, (P - 1) // 2]
